@@ -61,7 +61,7 @@ def run(ctx):
     ctx.assumptions += ["AES/HMAC numerics are outside TLA+; the harness recomputes them with CBC built from the raw block function"]
     r = ctx.tlc("Packet", model_cfg(q), name="model", timeout=1800)
     core.require_clean(r, "Packet protocol")
-    core.require_coverage(r, ["Fault", "Authenticate", "Decrypt"])
+    core.require_coverage(r, ["Fault", "Authenticate", "Decrypt", "Resubmit"])
     r0 = ctx.tlc("Packet", model_cfg(True, skip=True), name="model-skipverify", coverage=False)
     if r0.ok:
         raise core.MachineryError("Packet invariants accept a decrypt path that skips authentication (vacuous?)")
@@ -101,12 +101,15 @@ def run(ctx):
         ctx.count_distinct(("pad", n))
 
     # every tampering scenario of the table
-    def run_scenario(row, record=None):
+    def run_scenario(row, after_success=False):
         n = row["ptLen"]
         ak, hk, iv = keys()
         pt = rng.randbytes(n)
         pkt = c2.encrypt_packet(pt, ak, hk, iv)
         ct, sg = bytes(pkt.ciphertext), bytes(pkt.signature)
+        if after_success:
+            # history: the untampered packet was verified and decrypted once before (Packet.tla: Resubmit)
+            c2.decrypt_packet(pkt, ak, hk, iv, True)
         for p, b in row["ctFlips"]:
             ct = flip(ct, p, b)
         if row["ctCut"]:
@@ -119,13 +122,14 @@ def run(ctx):
             sg = flip(sg, p, b)
         use_hk = {"right": hk, "wrong": bytes([hk[0] ^ 1]) + hk[1:], "none": None}[row["hk"]]
         use_ak = ak if row["ak"] == "right" else ak[:-1] + bytes([ak[-1] ^ 0x80])
-        o = core.outcome(c2.decrypt_packet, c2.EncryptedPacket(ct, sg), use_ak, use_hk, iv, row["verify"])
+        same = ct == bytes(pkt.ciphertext) and sg == bytes(pkt.signature)
+        o = core.outcome(c2.decrypt_packet, pkt if same else c2.EncryptedPacket(ct, sg), use_ak, use_hk, iv, row["verify"])
         return pt, o
 
-    for row in tab["dec"]:
+    for ri, row in enumerate(list(tab["dec"]) + [dict(r_, _again=True) for r_ in tab["dec"]]):
         if row["sigFlips"] and row["sigLen"] == 0:
             continue  # nothing to flip in an empty signature
-        pt, o = run_scenario(row)
+        pt, o = run_scenario(row, after_success=row.get("_again", False))
         ctx.evaluations += 1
         exp = row["expect"]
         padded = pt + b"A" * row["pad"]
@@ -137,8 +141,8 @@ def run(ctx):
             good = o[0] == "ValueError" or (o[0] == "ok" and o[1] != padded)
         if not good:
             kind = "accepted_tampered" if exp == "ValueError" else "roundtrip" if exp == "plain" else "other"
-            viol("decrypt_packet", kind, {"scenario": row, "got": (o[0], L(o[1])[:48] if o[0] == "ok" else o[1])})
-        ctx.count_distinct(("dec", row["ptLen"], repr(row["ctFlips"]), repr(row["sigFlips"]), row["sigLen"], row["ctCut"], row["hk"], row["ak"], row["verify"]))
+            viol("decrypt_packet", kind, {"scenario": row, "after_earlier_success": row.get("_again", False), "got": (o[0], L(o[1])[:48] if o[0] == "ok" else o[1])})
+        ctx.count_distinct(("dec", row.get("_again", False), row["ptLen"], repr(row["ctFlips"]), repr(row["sigFlips"]), row["sigLen"], row["ctCut"], row["hk"], row["ak"], row["verify"]))
     ctx.sample({"decrypt_scenario": tab["dec"][len(tab["dec"]) // 3]})
 
     # framing tables
